@@ -263,6 +263,94 @@ theorem cast_unsupported (D : Defects) (v : Value) (k : Kind) (hn : v ≠ .null)
     (h : v.kind = .blob ∨ k = .blob ∨ k = .null) : tryCast D v k = .error .badCast := by
   cases v <;> cases k <;> simp_all [tryCast, Value.kind]
 
+/-- Float → integer casts return the truncation of the value (toward zero) when it fits the target, and fail
+    otherwise (NaN, infinities, out of range, negative to unsigned). -/
+theorem cast_double_to_int_trunc (b : Nat) (k : Kind) (w : Value) (hk : k.isInteger = true)
+    (h : tryCast {} (.double b) k = .ok w) :
+    f64.isFinite b = true ∧ w.intVal = some (truncF64 b) ∧ k.InRange (truncF64 b) := by
+  have hfl : floatToInt {} k b = some w := by
+    cases k <;> simp only [Kind.isInteger, Bool.false_eq_true] at hk <;>
+      simp only [tryCast, Value.kind, reduceCtorEq, if_false] at h <;>
+      (split at h
+       · rename_i w' hw; simp only [Except.ok.injEq] at h; rw [← h]; exact hw
+       · exact absurd h (by simp))
+  unfold floatToInt at hfl
+  split at hfl
+  · exact absurd hfl (by simp)
+  · rename_i lo hi hr
+    simp only [Bool.false_eq_true, false_and, if_false] at hfl
+    split at hfl
+    · exact absurd hfl (by simp)
+    · rename_i hfin
+      split at hfl
+      · exact absurd hfl (by simp)
+      · split at hfl
+        · rename_i hin
+          simp only [Option.some.injEq] at hfl
+          refine ⟨by simpa using hfin, ?_, ?_⟩
+          · rw [← hfl]; exact intVal_ofInt k _ lo hi hr hin.1
+          · unfold Kind.InRange; rw [hr]; exact hin
+        · exact absurd hfl (by simp)
+
+/-- `truncF64` is truncation toward zero of the exact value: |t| ≤ |value| < |t| + 1 (in units of 2^-1074) and the
+    sign is the value's. -/
+theorem truncF64_spec (b : Nat) :
+    (truncF64 b).natAbs * unitScale ≤ f64.scaledMag b ∧ f64.scaledMag b < ((truncF64 b).natAbs + 1) * unitScale ∧
+    (f64.isNeg b = true → truncF64 b ≤ 0) ∧ (f64.isNeg b = false → 0 ≤ truncF64 b) := by
+  have hso : f64.scaleOff = 0 := by decide
+  have hbias : f64.bias = 1023 := by decide
+  have hmb : f64.mbits = 52 := rfl
+  unfold truncF64
+  simp only [FloatFmt.scaledMag, FloatFmt.qexp, hso, hbias, hmb, Nat.add_zero]
+  generalize f64.sig b = m
+  generalize hg : max (f64.expField b) 1 = g
+  have hg1 : 1 ≤ g := by omega
+  -- the magnitude of the truncation
+  have key : ∀ T : Nat,
+      T = (if (0 : Int) ≤ (g : Int) - ((1023 + 52 : Nat) : Int) then m * 2 ^ ((g : Int) - ((1023 + 52 : Nat) : Int)).toNat
+           else m / 2 ^ (-((g : Int) - ((1023 + 52 : Nat) : Int))).toNat) →
+      T * unitScale ≤ m * 2 ^ (g - 1) ∧ m * 2 ^ (g - 1) < (T + 1) * unitScale := by
+    intro T hT
+    by_cases hq : (0 : Int) ≤ (g : Int) - ((1023 + 52 : Nat) : Int)
+    · rw [if_pos hq] at hT
+      have e : ((g : Int) - ((1023 + 52 : Nat) : Int)).toNat = g - 1075 := by omega
+      rw [e] at hT
+      have : T * unitScale = m * 2 ^ (g - 1) := by
+        rw [hT, unitScale, Nat.mul_assoc, pow_split (g - 1075) 1074 (g - 1) (by omega)]
+      have hu := unitScale_pos'
+      rw [Nat.add_mul, this]
+      omega
+    · rw [if_neg hq] at hT
+      have e : (-((g : Int) - ((1023 + 52 : Nat) : Int))).toNat = 1075 - g := by omega
+      rw [e] at hT
+      have hd : 0 < 2 ^ (1075 - g) := Nat.pow_pos (by omega)
+      have h1 : T * 2 ^ (1075 - g) ≤ m := by rw [hT]; exact Nat.div_mul_le_self m _
+      have h2 : m < (T + 1) * 2 ^ (1075 - g) := by
+        rw [hT, Nat.mul_comm]; exact Nat.lt_mul_div_succ m hd
+      -- scale both bounds by 2^(g-1)
+      have hp : 0 < 2 ^ (g - 1) := Nat.pow_pos (by omega)
+      have hu : 2 ^ (1075 - g) * 2 ^ (g - 1) = unitScale := by
+        rw [unitScale]; exact pow_split (1075 - g) (g - 1) 1074 (by omega)
+      constructor
+      · have := Nat.mul_le_mul_right (2 ^ (g - 1)) h1
+        rw [Nat.mul_assoc, hu] at this
+        exact this
+      · have := Nat.mul_lt_mul_of_lt_of_le h2 (Nat.le_refl (2 ^ (g - 1))) hp
+        rw [Nat.mul_assoc, hu] at this
+        exact this
+  split
+  · -- negative
+    rename_i hneg
+    obtain ⟨k1, k2⟩ := key _ rfl
+    refine ⟨?_, ?_, fun _ => by omega, fun h => by rw [hneg] at h; exact absurd h (by simp)⟩
+    · rw [Int.natAbs_neg, Int.natAbs_natCast]; exact k1
+    · rw [Int.natAbs_neg, Int.natAbs_natCast]; exact k2
+  · rename_i hneg
+    obtain ⟨k1, k2⟩ := key _ rfl
+    refine ⟨?_, ?_, fun h => by rw [h] at hneg; exact absurd rfl hneg, fun _ => by omega⟩
+    · rw [Int.natAbs_natCast]; exact k1
+    · rw [Int.natAbs_natCast]; exact k2
+
 /-- Shipped defect (fixed by f2c2f70): the double 2^63 cast to BIGINT gave i64::MAX instead of an error. -/
 theorem castSaturates_witness :
     tryCast { castSaturates := true } (.double 4890909195324358656) .bigint = .ok (.bigint 9223372036854775807) ∧
